@@ -212,15 +212,19 @@ inline Number parseNumber(const char* s) {
   bool isDouble = exponent < -FloatTraits<float>::exponent_max ||
                   exponent > FloatTraits<float>::exponent_max ||
                   mantissa > FloatTraits<float>::mantissa_max;
-  if (isDouble) {
-    auto final_result = make_float(double(mantissa), exponent);
-    return Number(is_negative ? -final_result : final_result);
-  } else
-#endif
-  {
-    auto final_result = make_float(float(mantissa), exponent);
-    return Number(is_negative ? -final_result : final_result);
+  if (!isDouble) {
+    auto float_result = make_float(float(mantissa), exponent);
+    // a 7-digit mantissa with an exponent close to 38 can exceed the range of
+    // float: fall through to double in that case
+    if (!isinf(float_result))
+      return Number(is_negative ? -float_result : float_result);
   }
+  auto final_result = make_float(double(mantissa), exponent);
+  return Number(is_negative ? -final_result : final_result);
+#else
+  auto final_result = make_float(float(mantissa), exponent);
+  return Number(is_negative ? -final_result : final_result);
+#endif
 }
 
 template <typename T>
